@@ -423,6 +423,24 @@ def pool():
     return _POOL
 
 
+def eval_real_optimized(blocks, timeout=900):
+    """the same blocks evaluated by a child interpreter started with -O (sys.flags.optimize = 1: `assert` statements are compiled away);
+    one process, so callers pass a modest sample"""
+    import pickle
+    # the child also turns RuntimeWarning (NumPy's "divide by zero", "invalid value", ...) into errors: a caller running with -W error
+    # must get the same answers
+    code = ("import sys, json, pickle, warnings; sys.path.insert(0, %r); from vf import real; real.SP(); warnings.simplefilter('error', RuntimeWarning); "
+            "blocks = json.load(sys.stdin); out = [real.eval_block(b) for b in blocks]; sys.stdout.buffer.write(b'\\n@@PICKLE@@' + pickle.dumps(out, 2))" % os.path.join(VERIF, "tools"))
+    env = dict(os.environ)
+    env.update({GUARD: "1", "MPLBACKEND": "Agg", "PYTHONDONTWRITEBYTECODE": "1"})
+    p = subprocess.run(["/venv/bin/python", "-O", "-c", code], input=json.dumps(blocks).encode(), stdout=subprocess.PIPE, stderr=subprocess.DEVNULL,
+                       env=env, timeout=timeout, cwd=os.path.join(VERIF, "tools"))
+    i = p.stdout.rfind(b"@@PICKLE@@")
+    if p.returncode != 0 or i < 0:
+        raise RuntimeError("python -O evaluation failed (rc %s)" % p.returncode)
+    return pickle.loads(p.stdout[i + 10:])
+
+
 def eval_real(blocks):
     """blocks: list of list-of-op-lines.  returns list of list-of-tagged-values"""
     if not blocks:
@@ -434,17 +452,60 @@ def eval_real(blocks):
 # ----------------------------------------------------------------------------------------------
 # known findings
 # ----------------------------------------------------------------------------------------------
+_CHILDQ_SPEC = {}
+
+
+def prefetch_childq(reals_all):
+    """one parallel driver call for the model's answers to every childq line of a run (judge_childq then finds them cached)"""
+    keys = []
+    for reals in reals_all:
+        for r in reals:
+            if r and r[0] == "childq":
+                parts = r[2].split(" ")
+                if parts[0] not in ("html", "getphos", "phosseq", "kappaphos"):
+                    keys.append("q %s %s%s" % (parts[0], r[1], "".join(" " + a for a in parts[1:])))
+    keys = [k for k in dict.fromkeys(keys) if k not in _CHILDQ_SPEC]
+    if keys:
+        for k, v in zip(keys, run_driver_parallel(keys, "spec")):
+            _CHILDQ_SPEC[k] = v
+
+
+def _spec1(line):
+    if line not in _CHILDQ_SPEC:
+        _CHILDQ_SPEC[line] = run_driver([line], "spec")[0]
+    return _CHILDQ_SPEC[line]
+
+
 def judge_childq(r):
     """a `childq` answer: (tag, sequence the object holds, query, answer) - compared with the model's answer for that sequence"""
     _, childseq, q, ans = r
     parts = q.split(" ")
+    if parts[0] == "dmaxperm":
+        spec = _spec1("q dmaxperm " + childseq)
+        return perm_ok(ans, spec, childseq)
+    if parts[0] in ("getphos", "phosseq", "kappaphos"):
+        return True, ""      # (consistency of the duplicate's sites with the original is checked where the duplicate is made)
     if parts[0] == "html":
         spec = run_driver(["new 0 " + childseq, "o 0 html"], "spec")[1]
     else:
         line = "q %s %s%s" % (parts[0], childseq, "".join(" " + a for a in parts[1:]))
-        spec = run_driver([line], "spec")[0]
+        spec = _spec1(line)
     ok, why = match(ans, spec)
     return ok, "object handed back by the library holds %s; %s on it -> %s but that sequence's value is %s" % (childseq, q, str(ans)[:100], spec[:100])
+
+
+def copy_cases(rng, nseq, queries, pres=("kappa", "dmaxperm", "setphos", "linFCR", "kappa,setphos", "-")):
+    """duplicates (copy / deepcopy / pickle / copy of the backend object) of objects with built-up state: every way x every pre-call"""
+    from . import gen
+    out = []
+    for _ in range(nseq):
+        s = gen.rand_seq(rng, rng.choice(["polyampholyte", "idp", "blocky"]), rng.randint(8, 30))
+        if not any(c in "STY" for c in s):
+            s = s[:-3] + "STY"
+        for how in ("deepcopy", "pickle", "copybackend", "copy"):
+            for pre in pres:
+                out.append("childq %s %s %s %s" % (how, s, pre, rng.choice(queries)))
+    return out
 
 
 def childq_cases(rng, n, queries, maxlen=40):
@@ -454,11 +515,14 @@ def childq_cases(rng, n, queries, maxlen=40):
     for _ in range(n):
         s = gen.rand_seq(rng, rng.choice(["polyampholyte", "idp", "blocky"]), rng.randint(6, maxlen))
         how = rng.choice(["swap", "swap", "swapcharge", "shuffle", "backendshuffle", "permutant", "frozenshuffle", "frozenshuffle", "frozenshuffle",
-                          "kappashuffle"])
+                          "kappashuffle", "deepcopy", "pickle", "copybackend", "copy"])
         q = rng.choice(queries)
         if how == "swap":
             i, j = rng.randrange(len(s)), rng.randrange(len(s))
             out.append("childq swap %s %d %d %s" % (s, i, j, q))
+        elif how in ("deepcopy", "pickle", "copybackend", "copy"):
+            pre = rng.sample(["kappa", "dmaxperm", "setphos", "linFCR"], rng.randint(0, 2))
+            out.append("childq %s %s %s %s" % (how, s, ",".join(pre) or "-", q))
         elif how in ("frozenshuffle", "kappashuffle"):
             # frozen: charged positions / their right neighbours / a window / everything but one / nothing
             ch = [i for i, c in enumerate(s) if c in "KRDE"]
